@@ -327,7 +327,7 @@ func (g *gen) RenderFeatures() {
 		heads := []string{"triangle", "arrow", "diamond", "circle", "box", "cross", "cf-one", "cf-one-required", "cf-many", "cf-many-required", "unfilled-triangle"}
 		flip := tp.Chance(1, 2, "rf.arrowheads.flip")
 		for i, h := range heads {
-			fmt.Fprintf(&g.sb, "ah%d -> ah%d: {\n  source-arrowhead: {shape: %s; style.filled: %v}\n  target-arrowhead: %d {shape: %s; style.filled: %v}\n}\n", i, i+1, h, flip, i, h, !flip)
+			fmt.Fprintf(&g.sb, "ah%d <-> ah%d: {\n  source-arrowhead: {shape: %s; style.filled: %v}\n  target-arrowhead: %d {shape: %s; style.filled: %v}\n}\n", i, i+1, h, flip, i, h, !flip)
 		}
 	}
 	if tp.Chance(1, 6, "rf.biggrid") {
